@@ -90,10 +90,24 @@ def build(tier, work, builder):
     # type_t::print_declaration: the printing chain after the kind switch
     ts = X.Source("src/type.cpp")
     pd = X.function(ts, "type_t::print_declaration", r"^std::ostream& type_t::print_declaration\(std::ostream& os\) const")
-    ch = X.if_chain(ts, "type_t::print_declaration: if (range) ... chain", r"if \(range\) \{", (pd.start, pd.end))
+    # the chain reads the flags the kind switch sets; their names are taken from the switch itself (robust to renaming)
+    head = ts.text[pd.start:pd.end]
+    names = {}
+    for role, lab in (("range", "RANGE"), ("array", "ARRAY"), ("label", "LABEL")):
+        fm = re.search(r"case (?:Constants::)?%s:\s*(\w+) = true;" % lab, head)
+        if not fm:
+            raise X.ExtractionBroken("type_t::print_declaration: the flag set for %s is not found" % lab)
+        names[role] = fm.group(1)
+    fm = re.search(r"case (?:Constants::)?TYPEDEF:\s*(\w+) = \"typedef\";\s*(\w+) = true;", head)
+    if not fm:
+        raise X.ExtractionBroken("type_t::print_declaration: the TYPEDEF case changed shape")
+    names["kind"], names["typedef"] = fm.group(1), fm.group(2)
+    ch = X.if_chain(ts, "type_t::print_declaration: if (range) ... chain", r"if \(%s\) \{" % re.escape(names["range"]), (pd.start, pd.end))
     X.rename_self_calls(ch, "print_declaration", pattern=r"\)\s*\.\s*print_declaration\(", minimum=0)
-    ch.text = ("std::ostream& type_t::print_declaration_tail(std::ostream& os, bool range, bool array, bool label, bool typeDef, std::string kind) const\n{\n"
-               + ch.text + "\n    return os;\n}\n")
+    if re.search(r"if \(%s\) \{" % re.escape(names["range"]), ch.text) is None:
+        raise X.ExtractionBroken("type_t::print_declaration: the chain does not start with the range flag")
+    ch.text = ("std::ostream& type_t::print_declaration_tail(std::ostream& os, bool %s, bool %s, bool %s, bool %s, std::string %s) const\n{\n"
+               % (names["range"], names["array"], names["label"], names["typedef"], names["kind"]) + ch.text + "\n    return os;\n}\n")
     write(work, "print_declaration_tail.inc", ch.text)
     write(work, "kinds.h", T.kinds_header())
     slices = slices + [ch]
